@@ -1,13 +1,14 @@
 package binder
 
 import (
-	"github.com/gofiber/utils/v2"
 	"github.com/valyala/fasthttp"
 )
 
 // RespHeaderBinding is the respHeader binder for response header.
 type RespHeaderBinding struct {
 	EnableSplitting bool
+	// Immutable makes the binder copy keys and values out of the request buffers (Config.Immutable)
+	Immutable bool
 }
 
 // Name returns the binding name.
@@ -25,8 +26,8 @@ func (b *RespHeaderBinding) Bind(resp *fasthttp.Response, out any) error {
 			return
 		}
 
-		k := utils.UnsafeString(key)
-		v := utils.UnsafeString(val)
+		k := toString(key, b.Immutable)
+		v := toString(val, b.Immutable)
 		err = formatBindData(out, data, k, v, b.EnableSplitting, false)
 	})
 
@@ -40,4 +41,5 @@ func (b *RespHeaderBinding) Bind(resp *fasthttp.Response, out any) error {
 // Reset resets the RespHeaderBinding binder.
 func (b *RespHeaderBinding) Reset() {
 	b.EnableSplitting = false
+	b.Immutable = false
 }
